@@ -275,16 +275,35 @@ def gen_np(rng):
 
 # ------------------------------------------------------------------ running
 
+def crashed_layout(case, reason):
+    return {'obs': [{'code': 99, 'data': 0, 'member': None, 'imgs': [], 'snap': None} for _ in case['loads']],
+            'cwd': '/nowhere',
+            'fails': [{'clause': 'crash-or-hang', 'site': 'worker', 'load': -1,
+                       'what': 'the implementation did not survive this layout: ' + reason}]}
+
+
+def crashed_select(case, reason):
+    return {'code': 99, 'member': None, 'crash': reason}
+
+
+def _bisect_parallel(chunks, payload_of, crashed, timeout):
+    from concurrent.futures import ThreadPoolExecutor
+
+    def one(ch):
+        return core.run_cases_bisect('c16', ch, payload_of, crashed, timeout=timeout)
+    with ThreadPoolExecutor(max_workers=core.NCPU) as ex:
+        outs = list(ex.map(one, chunks))
+    return [r for out in outs for r in out]
+
+
 def run_layouts(cases):
     chunks = [cases[i:i + 25] for i in range(0, len(cases), 25)]
-    outs = core.run_impl_parallel('c16', [{'cases': ch} for ch in chunks])
-    return [r for out in outs for r in out]
+    return _bisect_parallel(chunks, lambda cs: {'cases': cs}, crashed_layout, 240)
 
 
 def run_selects(cases):
     chunks = [cases[i:i + 400] for i in range(0, len(cases), 400)]
-    outs = core.run_impl_parallel('c16', [{'select': ch} for ch in chunks])
-    return [r for out in outs for r in out]
+    return _bisect_parallel(chunks, lambda cs: {'select': cs}, crashed_select, 240)
 
 
 def failures_of(cases, results, limit=6):
@@ -347,6 +366,12 @@ def run(ctx):
     failures = failures_of(cases, results)
     # selection failures seen in the pure batch: a raw exception or a wrong class is a failure of
     # the "archive without a document is reported" clause only when there is no .dae member at all
+    for c, r in zip(sel, selres):
+        if r.get('crash'):
+            failures.append({'signature': 'C16:crash-or-hang:zip-select', 'clause': 'crash-or-hang',
+                             'what': 'the implementation did not survive this archive: ' + r['crash'],
+                             'input': {'select': c}, 'detail': r})
+            break
     for c, r in zip(sel, selres):
         if c['zip_filename'] is None and not any(n.lower().endswith('.dae') for n in c['names']):
             if r['code'] == 0 or not 1 <= r['code'] <= 6:
@@ -452,7 +477,7 @@ def replay(ctx, body):
         c = inp['select']
         badsel = c['zip_filename'] is None and not any(n.lower().endswith('.dae') for n in c['names']) and \
             (r['code'] == 0 or not 1 <= r['code'] <= 6)
-        if badsel:
+        if badsel or r.get('crash'):
             print('VIOLATION property=C16 replay=%s' % body.get('replay_cmd', '').split()[-1])
             return 1
         print('replay: the clause holds on this archive now')
